@@ -29,20 +29,20 @@ theorem kitty_bodies_recognised : kittyResizeBody.all stmtKnown = true ∧ kitty
 theorem kitty_resize_body_eq_model (k : KBuf) (e : Nat) :
     resizeGen k e = ⟨k.buf ++ [e], false⟩ ∧
     absK (resizeGen k e) = (absK k).resize true := by
-  have h : kittyResizeBody = stdResizeBody := by decide
   unfold resizeGen
-  rw [h, resizeWith_std]
+  rw [resizeGen_std, resizeWith_std]
   exact ⟨rfl, by simp [absK, VaxisModel.Model.ImageTerm.KImg.resize]⟩
 
 /-- **The placement's `writeTo` closure, interpreted from the regenerated body, is the model**: when `k.uploaded` is
     clear it sends the whole buffer, sets `k.uploaded`, empties the buffer, and then places; when set it only places.
-    On the counting abstraction this is `ImageTerm.KImg.write` (state and number of encodings sent). -/
+    On the counting abstraction this is `ImageTerm.KImg.write` (state and number of encodings sent).  (Both theorems
+    are semantic — the regenerated statements are evaluated on a symbolic state — not a comparison of statement
+    lists: a reordering that computes the same passes.) -/
 theorem kitty_write_body_eq_model (k : KBuf) :
     writeGen k = (if k.uploaded then (k, [.place]) else (⟨[], true⟩, [.send k.buf, .place])) ∧
     absK (writeGen k).1 = ((absK k).write).1 ∧ sentCount (writeGen k).2 = ((absK k).write).2 := by
-  have h : kittyWriteBody = stdWriteBody := by decide
   unfold writeGen
-  rw [h, writeWith_std]
+  rw [writeGen_std, writeWith_std]
   cases k with
   | mk buf up => cases up <;> simp [absK, sentCount, VaxisModel.Model.ImageTerm.KImg.write]
 
@@ -123,7 +123,7 @@ theorem order_matters :
     let a : Placement := ⟨1, 2, 3, 4, 4⟩
     let a' : Placement := ⟨1, 2, 3, 2, 2⟩
     let ops : List WOp := [.resize 1 true, .draw a, .render, .clear, .resize 1 true, .draw a', .render]
-    let step := World.stepWith [.writeLoop, .deleteLoop, .clearLast, .saveLast] stdShape samePlacement kittyResizeBody kittyWriteBody
+    let step := World.stepWith [.writeLoop, .deleteLoop, .clearLast, .saveLast] stdShape samePlacement stdResizeBody stdWriteBody
     FramesKeyFun [] ops ∧
     (ops.foldl step World.init).ps.last = [a'] ∧
     (ops.foldl step World.init).term.places (key a') = none ∧
